@@ -40,6 +40,8 @@ pub enum G {
     Nested(Box<G>),
     /// `a.recover_with(via_parser(f))`
     Recover(Box<G>, Box<G>),
+    /// `a.lazy()`: a, then the rest of the (current, possibly nested) input is skipped
+    Lazy(Box<G>),
 }
 use G::*;
 
@@ -291,6 +293,12 @@ fn eval0(g: &G, t: &[Sp], eoi: SimpleSpan, pos: usize, w: &mut World) -> Option<
                 }
             }
         }
+        Lazy(a) => {
+            // a.then_ignore(any().repeated()): the any() that ends the repetition fails at the end of this input
+            let (_, v) = eval(a, t, eoi, pos, w)?;
+            fail(w, t, eoi, t.len(), Exp::Any);
+            Some((t.len(), v))
+        }
         Nested(inner) => match t.get(pos) {
             Some((Tok::G(ts, ieoi), _)) => {
                 // the inner grammar runs on exactly the inner token list and must match all of it; the
@@ -341,7 +349,7 @@ fn is_straight_line(g: &G) -> bool {
         JA | JB | Any | End | Empty => true,
         Then(a, b) => is_straight_line(a) && is_straight_line(b),
         Validate(a) | Nested(a) => is_straight_line(a),
-        Or(..) | OrNot(_) | Rep(_) | Recover(..) => false,
+        Or(..) | OrNot(_) | Rep(_) | Recover(..) | Lazy(_) => false,
     }
 }
 
@@ -379,6 +387,7 @@ fn build0<'a>(g: &G) -> BP<'a> {
             })
             .boxed(),
         Recover(a, f) => build(a).recover_with(via_parser(build(f).map(|v| Val::R(Box::new(v))))).boxed(),
+        Lazy(a) => build(a).lazy().boxed(),
         Nested(inner) => build(inner)
             .map(|v| Val::N(Box::new(v)))
             .nested_in(select_ref! { Tok::G(ts, eoi) => ts.as_slice().map(*eoi, mapper as fn(&'a Sp) -> (&'a Tok, &'a SimpleSpan)) })
@@ -391,7 +400,7 @@ fn nullable(g: &G) -> bool {
         End | Empty | OrNot(_) | Rep(_) => true,
         Then(a, b) => nullable(a) && nullable(b),
         Or(a, b) => nullable(a) || nullable(b),
-        Validate(a) => nullable(a),
+        Validate(a) | Lazy(a) => nullable(a),
         Recover(a, f) => nullable(a) || nullable(f),
     }
 }
@@ -403,6 +412,10 @@ pub fn grammars(n: usize) -> Vec<G> {
     for a in grammars(n - 1) {
         let b = || Box::new(a.clone());
         out.extend([OrNot(b()), Validate(b()), Nested(b())]);
+        // lazy() is what makes "a nested parser need not consume its whole nested input" legal: only there
+        if !matches!(a, Lazy(_)) {
+            out.push(Nested(Box::new(Lazy(b()))));
+        }
         if !nullable(&a) {
             out.push(Rep(b()));
         }
@@ -510,7 +523,7 @@ fn show_toks(ts: &[Sp]) -> String {
 }
 
 /// mismatch categories of this engine; a property alarms on its own projection
-pub const CATS: [&str; 6] = ["output", "emissions", "primary_error", "emissions_before_failure", "check_vs_parse", "panic"];
+pub const CATS: [&str; 7] = ["acceptance", "output", "emissions", "primary_error", "emissions_before_failure", "check_vs_parse", "panic"];
 
 pub fn run_unit(name: &str, n: usize, m: usize, depth: usize, cx: &ShardCtx, only: Option<(&str, &str)>) -> UnitResult {
     run_unit_for(name, n, m, depth, cx, only, &CATS, false)
@@ -607,7 +620,9 @@ pub fn run_unit_for(name: &str, n: usize, m: usize, depth: usize, cx: &ShardCtx,
                     // on a failed parse that went through a backtracking construct only the last (primary)
                     // error is specified; backtracking-free grammars never rewind, so there the whole list is
                     let (gc, wc) = if res.is_none() && !straight && !got.is_empty() { (got[got.len() - 1..].to_vec(), want[want.len() - 1..].to_vec()) } else { (got.clone(), want.clone()) };
-                    if o != res {
+                    if o.is_some() != res.is_some() {
+                        Some(("acceptance", format!("output {:?}, model {:?}", o, res)))
+                    } else if o != res {
                         Some(("output", format!("output {:?}, model {:?}", o, res)))
                     } else if gc != wc {
                         let cat = if res.is_some() {
@@ -641,9 +656,199 @@ pub fn run_unit_for(name: &str, n: usize, m: usize, depth: usize, cx: &ShardCtx,
     }
     r.distinct_outcomes = distinct.len() as u64;
     r.desc = format!(
-        "nested inputs: {} grammars{} (<= {} nodes over just/any/end/empty/then/or/or_not/repeated/validate/recover_with(via_parser)/nested_in) x {} token trees (<= {} tokens, nesting depth <= {}, gapped spans, non-zero-width inner end-of-input spans): outputs with every node's span, complete error list on success (and on failure for backtracking-free grammars; last error otherwise), check() == parse(); alarmed categories {:?}",
+        "nested inputs: {} grammars{} (<= {} nodes over just/any/end/empty/then/or/or_not/repeated/validate/recover_with(via_parser)/nested_in/lazy().nested_in) x {} token trees (<= {} tokens, nesting depth <= {}, gapped spans, non-zero-width inner end-of-input spans): outputs with every node's span, complete error list on success (and on failure for backtracking-free grammars; last error otherwise), check() == parse(); alarmed categories {:?}",
         gs.len(), if recover_only { " (those with a recovery and a nested parse)" } else { "" }, n, inputs.len(), m, maxdepth, alarm
     );
+    r
+}
+
+// =================================================================================================
+// recursive token-tree grammars with memoized() at different places: a memoized rule that is active outside a
+// nested input is entered again inside it (at inner positions that coincide with outer ones) - memoized() must stay
+// the identity
+// =================================================================================================
+
+macro_rules! both_forms {
+    ($name:expr, |$m:ident| $body:expr) => {{
+        let plain: BP = {
+            #[allow(unused_macros)]
+            macro_rules! $m {
+                ($p:expr) => {
+                    $p
+                };
+            }
+            $body
+        };
+        let memo: BP = {
+            #[allow(unused_macros)]
+            macro_rules! $m {
+                ($p:expr) => {
+                    $p.memoized()
+                };
+            }
+            $body
+        };
+        ($name, plain, memo)
+    }};
+}
+
+fn group_input<'a>() -> impl Parser<'a, MI<'a>, MI<'a>, Ex<'a>> + Clone {
+    select_ref! { Tok::G(ts, eoi) => ts.as_slice().map(*eoi, mapper as fn(&'a Sp) -> (&'a Tok, &'a SimpleSpan)) }
+}
+fn spanned<'a>(p: impl Parser<'a, MI<'a>, Val, Ex<'a>> + Clone + 'a) -> BP<'a> {
+    probe(p.boxed())
+}
+
+fn in_group<'a>(p: impl Parser<'a, MI<'a>, Val, Ex<'a>> + Clone + 'a) -> BP<'a> {
+    p.nested_in(group_input()).map(|v| Val::N(Box::new(v))).boxed()
+}
+fn many<'a>(p: impl Parser<'a, MI<'a>, Val, Ex<'a>> + Clone + 'a) -> BP<'a> {
+    p.repeated().collect::<Vec<_>>().map(Val::L).boxed()
+}
+
+pub fn rec_memo_variants<'a>() -> Vec<(&'static str, BP<'a>, BP<'a>)> {
+    let a = || just::<_, MI<'a>, Ex<'a>>(Tok::A).to(Val::A);
+    let b = || just::<_, MI<'a>, Ex<'a>>(Tok::B).to(Val::B);
+    let pair = |(x, y): (Val, Val)| Val::P(Box::new(x), Box::new(y));
+    vec![
+        both_forms!("tree = (A | B | group(tree*)).memoized()", |m| {
+            recursive(|tree| {
+                let alts = choice((a(), b(), in_group(many(tree))));
+                spanned(m!(alts))
+            })
+            .boxed()
+        }),
+        both_forms!("tree = A | B | group(tree*).memoized()", |m| {
+            recursive(|tree| {
+                let g = in_group(many(tree));
+                spanned(choice((a(), b(), m!(g))))
+            })
+            .boxed()
+        }),
+        both_forms!("tree = A | B | group(tree.memoized()*)", |m| {
+            recursive(|tree| {
+                let t = m!(tree);
+                spanned(choice((a(), b(), in_group(many(t)))))
+            })
+            .boxed()
+        }),
+        both_forms!("sum = atom (B atom)* ; atom = (A | group(sum)).memoized()", |m| {
+            recursive(|sum| {
+                let at = a().or(in_group(sum));
+                let atom = spanned(m!(at));
+                spanned(atom.clone().foldl(b().ignore_then(atom).repeated(), |l, r| Val::P(Box::new(l), Box::new(r))))
+            })
+            .boxed()
+        }),
+        both_forms!("sum = (atom (B atom)*).memoized() ; atom = A | group(sum)", |m| {
+            recursive(|sum| {
+                let atom = spanned(a().or(in_group(sum)));
+                let s = atom.clone().foldl(b().ignore_then(atom).repeated(), |l, r| Val::P(Box::new(l), Box::new(r)));
+                spanned(m!(s))
+            })
+            .boxed()
+        }),
+        both_forms!("tree = (validate(A) | B | group(tree A) | group(tree*)).memoized()  [emissions; two alternatives on the same group]", |m| {
+            recursive(|tree| {
+                let va = a().validate(|v, e, em| {
+                    em.emit(Rich::custom(e.span(), "V"));
+                    v
+                });
+                let all = in_group(many(tree.clone()));
+                let two = in_group(tree.then(a()).map(pair));
+                let alts = choice((va, b(), two, all));
+                spanned(m!(alts))
+            })
+            .boxed()
+        }),
+    ]
+}
+
+type RecObs = Result<(Option<Val>, Vec<Alt>, bool, Vec<Alt>), String>;
+
+fn rec_obs<'a>(p: &BP<'a>, toks: &'a [Sp], eoi: SimpleSpan) -> RecObs {
+    catch_unwind(AssertUnwindSafe(|| {
+        let (o, errs) = p.parse(toks.map(eoi, mapper as fn(&Sp) -> (&Tok, &SimpleSpan))).into_output_errors();
+        let c = p.check(toks.map(eoi, mapper as fn(&Sp) -> (&Tok, &SimpleSpan)));
+        let ok = c.has_output();
+        (o, errs.iter().map(obs).collect::<Vec<Alt>>(), ok, c.into_errors().iter().map(obs).collect::<Vec<Alt>>())
+    }))
+    .map_err(cvh::e1::panic_msg)
+}
+
+pub fn run_rec_memo(name: &str, m: usize, depth: usize, cx: &ShardCtx, only: Option<(&str, &str)>) -> UnitResult {
+    let mut r = UnitResult { name: name.to_string(), exhaustive: true, ..Default::default() };
+    let mut inputs: Vec<(Vec<Sp>, SimpleSpan)> = vec![];
+    for k in 0..=m {
+        for t in trees(k, depth) {
+            let mut c = 1usize;
+            let v = assign(t, &mut c);
+            inputs.push((v, (c..c + 1).into()));
+        }
+    }
+    let vs = rec_memo_variants();
+    let mut distinct = HashSet::new();
+    let mut case = 0usize;
+    for (vname, plain, memo) in &vs {
+        for (toks, eoi) in &inputs {
+            let me = case % cx.nshards == cx.shard;
+            case += 1;
+            if !me || cx.skip.contains(&(case - 1)) {
+                continue;
+            }
+            let iname = show_toks(toks);
+            if let Some((og, oi)) = only {
+                if og != *vname || oi != iname {
+                    continue;
+                }
+            }
+            (cx.progress)(case - 1);
+            r.cases += 1;
+            r.validated += 1;
+            r.states += toks.len() as u64 + 1;
+            r.transitions += 2;
+            let pa = rec_obs(plain, toks.as_slice(), *eoi);
+            let pm = rec_obs(memo, toks.as_slice(), *eoi);
+            if let Ok((o, e, ..)) = &pa {
+                *r.counters.entry(if o.is_some() { "accepted" } else { "rejected" }.into()).or_default() += 1;
+                if o.is_some() && depth_of(toks) >= 1 {
+                    *r.counters.entry("accepted_with_a_group".into()).or_default() += 1;
+                }
+                use std::hash::{Hash, Hasher};
+                let mut h = std::collections::hash_map::DefaultHasher::new();
+                format!("{vname}{o:?}{e:?}").hash(&mut h);
+                distinct.insert(h.finish());
+                if r.samples.len() < 4 && o.is_some() && depth_of(toks) >= 2 {
+                    r.samples.push(format!("{vname} on [{iname}] -> accepted in both forms"));
+                }
+            }
+            let bad = match (&pa, &pm) {
+                (Err(e), _) => Some(("panic", format!("plain form panicked: {e}"))),
+                (_, Err(e)) => Some(("panic", format!("memoized form panicked: {e}"))),
+                (Ok(x), Ok(y)) => {
+                    if x.0.is_some() != y.0.is_some() {
+                        Some(("acceptance", format!("memoized form gives {:?}, plain form {:?}", y.0, x.0)))
+                    } else if x.0 != y.0 {
+                        Some(("output", format!("memoized form gives {:?}, plain form {:?}", y.0, x.0)))
+                    } else if x.1 != y.1 {
+                        Some((if x.0.is_some() { "emissions" } else { "primary_error" }, format!("memoized form reports {:?}, plain form {:?}", y.1, x.1)))
+                    } else if (x.2, &x.3) != (y.2, &y.3) || x.2 != x.0.is_some() {
+                        Some(("check_vs_parse", format!("check(): memoized form accepted={} {:?}, plain form accepted={} {:?}", y.2, y.3, x.2, x.3)))
+                    } else {
+                        None
+                    }
+                }
+            };
+            if let Some((cat, why)) = bad {
+                r.mismatch_count += 1;
+                if r.mismatches.len() < 20 {
+                    r.mismatches.push(json!({"engine": "nested", "unit": name, "grammar": vname, "input": iname, "categories": [cat], "detail": why, "explained_by": []}));
+                }
+            }
+        }
+    }
+    r.distinct_outcomes = distinct.len() as u64;
+    r.desc = format!("recursive token-tree grammars ({} of them: memoized() on the whole rule, on the nested_in parser, on the recursive reference, on an atom / a sum of an expression grammar, with emissions) vs the same grammar without memoized(), on all {} token trees (<= {} tokens, nesting depth <= {}): output with spans, every error, check()", vs.len(), inputs.len(), m, depth);
     r
 }
 
@@ -654,7 +859,9 @@ fn projection(unit: &str) -> (&str, &'static [&'static str], bool) {
         None => (unit, &CATS, false),
         Some((b, "emissions")) => (b, &["emissions", "emissions_before_failure", "panic"], false),
         Some((b, "primary")) => (b, &["primary_error", "panic"], false),
-        Some((b, "recovery")) => (b, &["output", "emissions", "primary_error", "emissions_before_failure", "panic"], true),
+        Some((b, "recovery")) => (b, &["acceptance", "output", "emissions", "primary_error", "emissions_before_failure", "panic"], true),
+        // C03: a nested input is consumed completely too (unless its parser is lazy()), and check() says the same
+        Some((b, "contract")) => (b, &["acceptance", "check_vs_parse", "panic"], false),
         Some((b, _)) => (b, &CATS, false),
     }
 }
@@ -665,6 +872,7 @@ pub fn run(unit: &str, tier: Tier, cx: &ShardCtx) -> UnitResult {
     match base {
         "nested-wide" => run_unit_for(unit, if q { 5 } else { 6 }, if q { 5 } else { 6 }, 2, cx, None, alarm, rec),
         "nested-deep" => run_unit_for(unit, if q { 4 } else { 5 }, if q { 5 } else { 6 }, 4, cx, None, alarm, rec),
+        "nested-recursive-memo" => run_rec_memo(unit, if q { 6 } else { 7 }, 4, cx, None),
         _ => panic!("unknown unit {unit}"),
     }
 }
@@ -677,6 +885,7 @@ pub fn replay(v: &Value) -> Result<Option<String>, String> {
     let cx = ShardCtx { shard: 0, nshards: 1, known: cvm::sem::Sw::NONE, skip: vec![], progress: &progress };
     let only = Some((v["grammar"].as_str().unwrap_or(""), v["input"].as_str().unwrap_or("")));
     let r = match projection(&unit).0 {
+        "nested-recursive-memo" => run_rec_memo(&unit, if q { 6 } else { 7 }, 4, &cx, only),
         "nested-deep" => run_unit(&unit, if q { 4 } else { 5 }, if q { 5 } else { 6 }, 4, &cx, only),
         _ => run_unit(&unit, if q { 5 } else { 6 }, if q { 5 } else { 6 }, 2, &cx, only),
     };
